@@ -33,12 +33,12 @@ def gen_cases(rng, tier):
             typ = "mixed"
         k = rng.choice([2, 3, 10])
         pad = [gens.outcome(rng, 0.0) for _ in range(rng.randint(1, 2))]
-        cases.append({"kind": "stats", "h": h, "typ": typ, "scale": k, "pad": pad,
+        cases.append({"kind": "stats", "h": h, "typ": typ, "scale": k, "pad": pad, "form": rng.choice(["map", "map", "pairs", "mixed"]),
                       "other": gens.hist(rng, max_faces=4, style="pos", frac_p=0.0)})
     return cases
 
 
-def _mk(h, typ):
+def _mk(h, typ, form="map"):
     from dyce import H
     d = {}
     for o, c in h:
@@ -48,6 +48,17 @@ def _mk(h, typ):
         elif typ == "bool":
             v = bool(v)
         d[v] = c
+    if form == "pairs":
+        return H(reversed(list(d.items())))
+    if form == "mixed" and typ != "bool":
+        # bare outcomes mixed with (outcome, count) pairs: the initializer cannot sort those against each other and
+        # falls back to another key, so the stored order need not be ascending (distribution() must still be)
+        items = [o if c == 1 else (o, c) for o, c in d.items()]
+        if items and all(isinstance(x, tuple) for x in items):
+            o, c = items[-1]
+            if c > 1:
+                items[-1:] = [(o, c - 1), o]
+        return H(reversed(items))
     return H(d)
 
 
@@ -62,14 +73,14 @@ def _num(x):
 
 def impl_run(case):
     from dyce import H
-    h = _mk(case["h"], case["typ"])
+    h = _mk(case["h"], case["typ"], case.get("form", "map"))
     out = {}
     out["dist"] = [[qv(o), list(p)] for o, p in h.distribution(rational_t=lambda n, d: (n, d))]
     probs = [p for _, p in h.distribution()]
     out["dist_sum"] = qv(sum(probs, Fraction(0)))
-    out["dist_frac_ok"] = all(isinstance(p, Fraction) and p == Fraction(c, h.total or 1) for p, c in zip(probs, h.counts()))
+    out["dist_frac_ok"] = all(isinstance(p, Fraction) and p == Fraction(h[o], h.total or 1) for o, p in h.distribution())
     xy = h.distribution_xy()
-    out["xy_ok"] = (xy == () and len(h) == 0) or (len(xy) == 2 and list(xy[0]) == list(h.outcomes())
+    out["xy_ok"] = (xy == () and len(h) == 0) or (len(xy) == 2 and list(xy[0]) == [o for o, _ in h.distribution()] == sorted(h.outcomes())
                     and all(isinstance(y, float) and y == float(p) for y, p in zip(xy[1], probs)))
     try:
         m = h.mean()
